@@ -255,7 +255,12 @@ def generate(tier):
                 sp += 1
                 add(build_struct(fl, assign, 'd', 0, sp, ctx=ctx))
                 add(build_enum(fl, assign, 'e', 'r', 0, True, sp, ctx=ctx))
-    return cases
+    seen, out = set(), []
+    for c in cases:
+        if c.key not in seen:
+            seen.add(c.key)
+            out.append(c)
+    return out
 
 
 RULE = ('structs: {unit, (), {}, tuple, named} with F fields x name {default, renamed, disabled} x named_field {default, flipped} x '
